@@ -1,7 +1,42 @@
 import Oracle.Proto
-/-! Oracle suites of property C18 (registered in Oracle/Main.lean through `suites`). -/
+import Oracle.Backoff
+import Oracle.Retry
+/-! Oracle suites of property C18. -/
 namespace Oracle.C18
 
-def suites : List (String × Suite) := []
+/-- T-facts: canonical text of the delay formula that `MV.Model.Backoff.delay` transcribes; both
+    `chrono.ExponentialBackoff` and `toolkit.ConditionalRetryByExponentialBackoff` must contain exactly
+    this statement list (loop counter renamed to `n`). -/
+def delayFormula : String :=
+  "delay := float64(baseDelay) * math.Pow(multiplier, float64(n)) ; " ++
+  "jitter := (rand.Float64() - 0.5) * randomization * float64(baseDelay) ; " ++
+  "sleep := delay + jitter ; " ++
+  "if math.IsNaN(sleep) { sleep = 0 } ; " ++
+  "sleepDuration := time.Duration(sleep) ; " ++
+  "if sleep >= float64(maxDelay) || sleepDuration > maxDelay { sleepDuration = maxDelay }"
+
+/-- the test in front of the formula: `MV.Model.Backoff.backoff` / `MV.Model.Retry.condLoop` -/
+def guardChrono : String := "if n > maxRetries && maxRetries > -1 { return -1 }"
+def guardRetry : String := "if n >= maxRetries { return fmt.Errorf(\"max retries reached: %w\", err) }"
+
+def formula : Suite where
+  σ := Unit
+  init := ()
+  step _ toks := match toks with
+    | ["delayexpr", "chrono"] => ((), delayFormula)
+    | ["delayexpr", "retry"] => ((), delayFormula)
+    | ["guard", "chrono"] => ((), guardChrono)
+    | ["guard", "retry"] => ((), guardRetry)
+    | _ => ((), "bad-op")
+
+def suites : List (String × Suite) := [
+  ("backoff-judge", Oracle.Backoff.judge),
+  ("backoff0", Oracle.Backoff.model0),
+  ("backoff0-spec", Oracle.Backoff.spec0),
+  ("retry", Oracle.Retry.model),
+  ("retry-spec", Oracle.Retry.spec),
+  ("retrytime-judge", Oracle.Retry.timeJudge),
+  ("formula", formula)
+]
 
 end Oracle.C18
